@@ -44,10 +44,10 @@ PROPS['C04'] = {
 
 PROPS['C05'] = {
     'level': 'other',
-    'units': ['C05/fmindex'],
+    'units': ['C05/fmindex', 'C04/occ', 'C04/less'],
     'kani': [],
     'oracle': 'C05',
-    'decided': ['FMIndexable::backward_search (the real default method) returns Complete/Partial/Absent exactly as defined by the LF recurrence l\' = less(a)+occ(l-1,a), r\' = less(a)+occ(r,a)-1 over the pattern read right to left; no arithmetic underflow given less(a) >= 1 for pattern symbols'],
+    'decided': ['Occ::get / less / bwt tables exact (units shared with C04: every Occ sampling rate)', 'FMIndexable::backward_search (the real default method) returns Complete/Partial/Absent exactly as defined by the LF recurrence l\' = less(a)+occ(l-1,a), r\' = less(a)+occ(r,a)-1 over the pattern read right to left; no arithmetic underflow given less(a) >= 1 for pattern symbols'],
     'undecided': ['link between the LF recurrence and suffix-array occurrences (Ferragina-Manzini theorem: assumed, mathematics not code)',
                   'Interval::occ and sampled suffix array resolution (iterator adapter chain)', 'FMIndex::{occ,less,bwt} delegation through Borrow'],
     'trusted': ['trait obligations bounds/mono on implementors (stated as proof fns of the trait; discharged for FMIndex only by C04 contracts informally)'],
@@ -57,13 +57,15 @@ PROPS['C05'] = {
 
 PROPS['C07'] = {
     'level': 'proof',
-    'units': ['C07/avl'],
+    'units': ['C07/avl', 'C07/iitree'],
     'kani': [],
     'oracle': 'C07',
     'decided': ['AVL interval tree: Node::insert preserves the search-tree/max/height/balance invariant and adds exactly one entry to the multiset of entries (rotations, repair, update_max, update_height under contract)',
                 'IntervalTreeIterator::next and IntervalTreeIteratorMut::next yield exactly the pending overlapping entries, each once, and terminate',
-                'intersect == half-open overlap'],
-    'undecided': ['IntervalTree::{insert,find,find_mut} wrappers (Into<Interval> plumbing)', 'array-backed interval tree (cgranges arithmetic, capturing closures)', 'AnnotMap (HashMap<String,_> delegation)'],
+                'intersect == half-open overlap',
+                'IntervalTree::{insert, find, find_mut}: insert adds exactly the entry and keeps the invariant; find/find_mut start the iterator with exactly the overlapping entries pending',
+                'ArrayBackedIntervalTree::insert appends the entry and invalidates the index (un-indexed queries are refused)'],
+    'undecided': ['array-backed tree index()/find (cgranges level arithmetic, capturing closures, sort_by_key)', 'AnnotMap (HashMap + bio_types::Loc delegation)', 'IntervalTree::new / FromIterator (Default/collect plumbing)'],
     'trusted': ['generic N: lawful total order and faithful Clone are explicit preconditions', 'cmp::max, i64::abs, Option::map_or std specs (assume_specification)'],
     'level_text': 'Verus proves the AVL tree invariant, multiset-of-entries postconditions and both query iterators for generic key and data types; the array-backed tree and AnnotMap are not decided.',
     'level_note': 'Trusted: Verus/Z3; N: Ord lawful and Clone faithful (stated requires); std specs for max/abs; wrappers and the other two containers undecided.',
